@@ -190,8 +190,15 @@ def s15_3(ctx, P):
                     used = True
                     for fld in writers:
                         o = rr['o'][rr['fields'].index(fld)]
-                        if not ('k' in o and o['k'].get('v') == 0):
-                            nonconst.append((p, fld))
+                        if 'k' in o and o['k'].get('v') == 0:
+                            continue                      # initialised to false
+                        if 'k' in o and o['k'].get('v') in (1, True):
+                            writers[fld].add(p)           # `Self { <fld>: true, ..self }` is the by-value form of `self.<fld> = true`
+                            continue
+                        if 'l' in o and has_origin(bb.operand_origins(o), r'field:DecryptionOptions\.%s$' % fld) and has_origin(bb.operand_origins(o), r'^param:1$') \
+                                and not has_origin(bb.operand_origins(o), r'^const:|^agg:'):
+                            continue                      # carried over from the options the function was given
+                        nonconst.append((p, fld))
         if not used:
             ctx.functions.discard(p)
     ctx.check(P + ':S15-3:who-sets-legacy', 'R-who', 'DecryptionOptions.legacy is set only by enable_legacy; literals initialise it to false',
